@@ -427,7 +427,12 @@ def substitute_type_args(etype, type_map,
     }
     type_con = perform_type_substitution(
         etype.t_constructor, new_type_map, cond)
-    return ParameterizedType(type_con, type_args)
+    new_type = ParameterizedType(type_con, type_args)
+    # The type constructor of the new type must keep the declared supertypes
+    # (as TypeConstructor.new() does); otherwise instantiating it again
+    # yields a type that inherits the supertypes of this substitution.
+    new_type.t_constructor.supertypes = etype.t_constructor.supertypes
+    return new_type
 
 
 def substitute_type(t, type_map):
